@@ -83,9 +83,14 @@ def build_cert(kid, expired, revoked, halg, secret=False):
 
 
 def corrupt(sigbody):
+    """a cryptographically wrong signature: either one bit of the last integer flipped, or (every other signature, by its left-16 field) the integer
+    raised by 2^(8*octets) -- out of range for every algorithm, although its low octets are the genuine value"""
     s = rsig.parse_sig_body(sigbody)
     m = list(s.mpis)
-    m[-1] ^= 2
+    if s.left16[0] % 2:
+        m[-1] += 1 << (8 * ((m[-1].bit_length() + 7) // 8))
+    else:
+        m[-1] ^= 2
     return rsig.build_sig_body(s.sigtype, s.pkalg, s.halg, s.hashed_area, s.unhashed_area, s.left16, m)
 
 
